@@ -528,9 +528,15 @@ func runC19(c *Ctx) {
 			if rs, ok := x.(*ast.RangeStmt); ok && exprKey(rs.X) == paramName(tf, 2) {
 				// the type stored at position i is derived from the catalog entry looked up for destination
 				// column i (the range value), whatever conversion is applied on the way
-				for _, st := range rs.Body.List {
-					as, ok := st.(*ast.AssignStmt)
-					if !ok || rs.Key == nil || !strings.HasSuffix(exprKey(as.Lhs[0]), "["+exprKey(rs.Key)+"]") {
+				var stores []*ast.AssignStmt
+				ast.Inspect(rs.Body, func(y ast.Node) bool {
+					if as, ok := y.(*ast.AssignStmt); ok && as.Tok == token.ASSIGN && len(as.Lhs) >= 1 && len(as.Rhs) >= 1 {
+						stores = append(stores, as)
+					}
+					return true
+				})
+				for _, as := range stores {
+					if rs.Key == nil || !strings.HasSuffix(exprKey(as.Lhs[0]), "["+exprKey(rs.Key)+"]") {
 						continue
 					}
 					// the element of this iteration: the range value, or the collection indexed by the range key
